@@ -198,8 +198,8 @@ func conforms(v cadence.Value, t cadence.Type) string {
 	case *cadence.OptionalType:
 		o, ok := v.(cadence.Optional)
 		if !ok {
-			// a non-optional value is acceptable where T? is expected only if wrapped; exported values are always wrapped
-			return "expected optional"
+			// T is a subtype of T?: e.g. an array with run-time type [[Int]] passed where [[Int]?] is declared
+			return conforms(v, t.Type)
 		}
 		if o.Value == nil {
 			return ""
